@@ -630,8 +630,119 @@ Fixpoint spec_hist (e : env) (h : list (op * bool)) (prev : obs) (full ref : lis
   end.
 
 (* ---------------------------------------------------------------- cases *)
+(* ---------------------------------------------------------------- attempts that OVERLAP in time
+   casket.instances while one attempt (B) is held inside the setup of its directives and other attempts run to their
+   end.  An instance is named by the marker of its configuration (every configuration of a case has its own, so
+   removing "the entry with this marker" is the splice by pointer identity of Instance.Stop and of the failure
+   clean-up of startWithListenerFds).
+     startWithListenerFds   appends the new instance BEFORE the directives run; when the attempt fails its deferred
+                            clean-up searches the list for that instance and splices it out;
+     Instance.Restart       = startWithListenerFds of the new one, then Stop of the old one (spliced out by search);
+     Instance.Stop          splices the instance out by search.
+   [ov_step] is one attempt that runs to its end (with its observed result: 0 = it succeeded), [ov_end] what B does
+   to the list when it is released. *)
+Inductive ovop := OvLoad (id : N) | OvReload (t id : N) | OvReloadBad (t id : N) | OvStop (t : N).
+Inductive ovb := OvBLoad | OvBReload (t : N).
+
+Definition ov_remove (x : N) (l : list N) : list N := filter (fun y => negb (y =? x)) l.
+Definition ov_mem (x : N) (l : list N) : bool := existsb (N.eqb x) l.
+
+Definition ov_step (l : list N) (o : ovop * N) : list N :=
+  match o with
+  | (OvLoad id, 0) => l ++ [id]
+  | (OvReload t id, 0) => if ov_mem t l then ov_remove t (l ++ [id]) else l
+  | (OvReloadBad t id, 0) => if ov_mem t l then ov_remove t (l ++ [id]) else l   (* it was not refused after all *)
+  | (OvStop t, 0) => ov_remove t l
+  | (_, _) => l          (* refused: the instance was appended and spliced out again by search *)
+  end.
+Definition ov_steps (l : list N) (os : list (ovop * N)) : list N := fold_left ov_step os l.
+
+(* B begins: its instance is in the list from now on *)
+Definition ov_begin (l : list N) (bid : N) : list N := l ++ [bid].
+(* B ends: refused -> its instance is searched and spliced out; accepted -> (a reload) the old one is stopped *)
+Definition ov_end (l : list N) (b : ovb) (bid : N) (ok : bool) : list N :=
+  if ok then match b with OvBLoad => l | OvBReload t => ov_remove t l end
+  else ov_remove bid l.
+(* the clean-up that remembers the POSITION at which B's instance was appended and splices out whatever stands
+   there when B is refused (kept to document that seeded defect, C08_overlap_slot_cleanup_refuted) *)
+Fixpoint remove_nth {A} (k : nat) (l : list A) : list A :=
+  match k, l with
+  | _, [] => []
+  | O, _ :: r => r
+  | S k', x :: r => x :: remove_nth k' r
+  end.
+Definition ov_end_slot (l : list N) (slot : nat) : list N := remove_nth slot l.
+
+(* the four instance lists of a case: before B, B held, after the inner attempts, after B returned *)
+Definition ov_lists (pre : list (ovop * N)) (b : ovb) (bid : N) (inner : list (ovop * N)) (bok : bool)
+  : list N * list N * list N * list N :=
+  let l1 := ov_steps [] pre in
+  let l2 := ov_begin l1 bid in
+  let l3 := ov_steps l2 inner in
+  (l1, l2, l3, ov_end l3 b bid bok).
+
+(* the markers an attempt mentions *)
+Definition ov_names (o : ovop * N) : list N :=
+  match fst o with OvLoad id => [id] | OvReload t id => [t; id] | OvReloadBad t id => [t; id] | OvStop t => [t] end.
+Definition ov_expected_ok (o : ovop * N) : bool :=
+  match fst o with OvReloadBad _ _ => negb (snd o =? 0) | _ => (snd o =? 0) || (snd o =? 4) end.
+
+(* the event-hook registry (number of hooks) along an overlap case.  Every attempt - B included - takes a copy of
+   the registry when it begins (cloneEventHooks) and, when it is refused, puts that copy back (restoreEventHooks):
+   an attempt that runs to its end registers its [on] hooks when it succeeds and leaves the registry as it found
+   it otherwise; B, refused, puts back the copy taken BEFORE the inner attempts ran. *)
+Definition ov_hooks_step (h : N) (o : ovop * N * N) : N :=
+  match o with
+  | (OvLoad _, 0, n) => h + n
+  | (OvReload _ _, 0, n) => h + n
+  | (OvReloadBad _ _, 0, n) => h + n
+  | _ => h
+  end.
+Definition ov_hooks_steps (h : N) (os : list (ovop * N * N)) : N := fold_left ov_hooks_step os h.
+(* B has no [on] line of its own *)
+Definition ov_hooks_end (at_begin now : N) (bok : bool) : N := if bok then now else at_begin.
+
 Inductive case :=
-| CHist (e0 : env) (h : list (op * bool)) (o0 : obs) (full ref : list obs) (fresh : list (option (N * (N * N)))).
+| CHist (e0 : env) (h : list (op * bool)) (o0 : obs) (full ref : list obs) (fresh : list (option (N * (N * N))))
+(* overlapping attempts: the attempts before B with their results, B (load / reload of t; marker; 0 = it is a valid
+   configuration, 1 refused by the gated directive, 2 at Listen, 3 by a startup callback), the attempts made while
+   B was held, whether B reached the gate, B's result; casket.Instances() before B / B held / after the inner
+   attempts (with the markers every entry's servers answer with) / after B returned (likewise); after casket.Stop():
+   the markers of the sites that still answer, the listening sockets left, the length of the list *)
+| COverlap (pre : list (ovop * N * N)) (b : ovb) (bid fail : N) (inner : list (ovop * N * N)) (entered : bool) (bres : N)
+           (ids1 ids2 ids3 : list N) (sites3 : list (list N)) (ids4 : list N) (sites4 : list (list N))
+           (still : list N) (socks_after ninst_after : N) (hooks1 hooks3 hooks4 : N).
+
+(* every entry but the one of the held attempt serves its own configuration; the held one has no server yet *)
+Fixpoint ov_live (held : option N) (ids : list N) (sites : list (list N)) : bool :=
+  match ids, sites with
+  | [], [] => true
+  | i :: ir, s :: sr =>
+      (match held with
+       | Some b => if i =? b then Nat.eqb (length s) 0 else negb (Nat.eqb (length s) 0) && forallb (N.eqb i) s
+       | None => negb (Nat.eqb (length s) 0) && forallb (N.eqb i) s
+       end) && ov_live held ir sr
+  | _, _ => false
+  end.
+
+(* the property on the observations of an overlap case, without the model: every attempt returns; valid ones are
+   accepted and invalid ones refused whatever else is in progress; a refused B leaves the list exactly as the
+   attempts that completed meanwhile made it - the SAME entries in the same order, B's own entry gone - and every
+   entry still serves its own configuration (the running sites are untouched); casket.Stop() then stops every
+   site and leaves no listening socket and no entry behind *)
+Definition ov_spec (b : ovb) (bid fail : N) (pre inner : list (ovop * N)) (entered : bool) (bres : N)
+           (ids3 : list N) (sites3 : list (list N)) (ids4 : list N) (sites4 : list (list N))
+           (still : list N) (socks_after ninst_after : N) : bool :=
+  forallb (fun o : ovop * N => (snd o <? 2) || (snd o =? 4)) (pre ++ inner)
+  && forallb ov_expected_ok (pre ++ inner)
+  && (bres <? 2) && entered
+  && (if fail =? 0 then bres =? 0 else bres =? 1)
+  && ov_live (Some bid) ids3 sites3
+  && (if bres =? 0
+      then lN_eqb ids4 (match b with OvBLoad => ids3 | OvBReload t => ov_remove t ids3 end)
+      else lN_eqb ids4 (ov_remove bid ids3) && negb (ov_mem bid ids4))
+  && ov_live None ids4 sites4
+  && match still with [] => true | _ => false end && (socks_after =? 0) && (ninst_after =? 0).
 
 Definition judge (c : case) : N :=
   match c with
@@ -639,6 +750,20 @@ Definition judge (c : case) : N :=
       let agree := obs_agree (predict ROk false g0) o0 && accepts 1 h full [(e0, g0)]
                    && accepts 1 h ref [(e0, g0)] in
       verdict agree (spec_hist e0 h o0 full ref fresh)
+  | COverlap pre0 b bid fail inner0 entered bres ids1 ids2 ids3 sites3 ids4 sites4 still socks_after ninst_after
+             hooks1 hooks3 hooks4 =>
+      let pre := map fst pre0 in
+      let inner := map fst inner0 in
+      let '(l1, l2, l3, l4) := ov_lists pre b bid inner (bres =? 0) in
+      let h1 := ov_hooks_steps 0 pre0 in
+      let h3 := ov_hooks_steps h1 inner0 in
+      let agree := negb entered || (bres =? 3) ||
+                   (lN_eqb l1 ids1 && lN_eqb l2 ids2 && lN_eqb l3 ids3 && lN_eqb l4 ids4
+                    && (h1 =? hooks1) && (h3 =? hooks3) && (ov_hooks_end h1 h3 (bres =? 0) =? hooks4)) in
+      (* a refused B leaves the registered event hooks as they were: those of the attempts that completed
+         meanwhile included *)
+      verdict agree (ov_spec b bid fail pre inner entered bres ids3 sites3 ids4 sites4 still socks_after ninst_after
+                     && (hooks4 =? hooks3))
   end.
 
 (* ---------------------------------------------------------------- vocabulary of the theorems *)
